@@ -23,7 +23,8 @@ class World:
 
     def __init__(self, r, d):
         self.r = r
-        self.ref = refgen.random_reference(r, n_genes=r.randrange(3, 6), coding_p=0.6, max_exons=2, aa_len=(10, 16), nc_len=(30, 60))
+        self.ref = refgen.random_reference(r, n_genes=r.randrange(3, 6), coding_p=0.6, max_exons=3, aa_len=(10, 16), nc_len=(30, 60),
+                                           isoform_p=0.6)
         self.paths = self.ref.write(d)
         self.txs = list(self.ref.txs.values())
         self.recs = {s: [] for s, _ in SRC}     # source -> list of (gene, id, line)
@@ -58,7 +59,9 @@ class World:
             vid = f"INDEL-{pos}-A-AT"
             return (g, vid, f"{g}\t{pos}\t{vid}\tA\tAT\t.\t.\tTRANSCRIPT_ID={t.id};GENE_SYMBOL=S;GENOMIC_POSITION=chr1:{pos}")
         if s == 'Fusion':
-            t2 = r.choice([x for x in self.txs if x.gene != g] or [None])
+            same = [x for x in self.txs if x.gene == g and x.id != t.id]
+            other = [x for x in self.txs if x.gene != g]
+            t2 = r.choice(same) if same and r.random() < 0.5 else r.choice(other or same or [None])   # intragenic fusions too
             if t2 is None:
                 return None
             vid = f"FUSION-{t.id}:{pos}-{t2.id}:{pos + 3}"
@@ -89,7 +92,7 @@ class World:
             t1 = fid.split('-')[1].split(':')[0]; t2 = fid.split('-')[2].split(':')[0]
             g2 = self.ref.txs[t2].gene
             v1 = [x for x in self.small(g, r.randrange(0, 2)) if not x[1].startswith('SE-')]
-            v2 = [x for x in self.small(g2, r.randrange(0, 2)) if not x[1].startswith('SE-')]
+            v2 = [x for x in self.small(g2, r.randrange(0, 3)) if not x[1].startswith('SE-') and x not in v1]
             label = '|'.join([fid] + [f'1-{v}' for _, v in v1] + [f'2-{v}' for _, v in v2] + [str(idx)])
             return label, [['var', g, fid]] + [['var', a, b] for a, b in v1] + [['var', a, b] for a, b in v2]
         if kind == 'circ' and self.recs.get('circRNA'):
